@@ -76,6 +76,10 @@ impl<'a> IndexPlanner<'a> {
             }
         };
         if is_temporal {
+            // `!=` is neither an equality nor a range probe: every zone may hold a row != v.
+            if matches!(operation, Some(CompareOp::Neq)) {
+                return IndexStrategy::FullScan;
+            }
             // IN operations require checking multiple values, which temporal range indexes can't efficiently handle.
             // Use FullScan and let the condition evaluator filter events.
             if matches!(operation, Some(CompareOp::In)) {
